@@ -41,6 +41,7 @@ pub fn is_nil(ty: &Ty, v: &View) -> bool {
     match (ty, v) {
         (Ty::Opt(_), View::None) => true,
         (Ty::NilU32, View::U(0)) => true,
+        (Ty::Tri, View::U(0)) => true,
         _ => false,
     }
 }
@@ -61,6 +62,9 @@ pub fn encode_ty(reg: &Registry, ty: &Ty, v: &View, o: &EncOpts) -> Item {
         (Ty::Map(k, t), View::Map(xs)) => mark(M_COLL, Item::map(xs.iter().map(|(a, b)| (encode_ty(reg, k, a, o), encode_ty(reg, t, b, o))).collect())),
         (Ty::Named(n), x) => encode_type(reg, &reg[n], x, &EncOpts { omit_top_index: None, force_variant_index: None, ..*o }),
         (Ty::Tagged(n, t), x) => Item::tag(*n, encode_ty(reg, t, x, o)),
+        (Ty::Tri, View::U(0)) => Item::undefined(),
+        (Ty::Tri, View::U(1)) => Item::null(),
+        (Ty::Tri, View::U(n)) => Item::uint(*n - 2),
         (Ty::NilU32, View::U(0)) => Item::null(),
         (Ty::NilU32, View::U(n)) => Item::uint(*n),
         (t, x) => panic!("view {:?} does not fit type {:?}", x, t),
@@ -186,7 +190,7 @@ pub fn expected_after_decode(reg: &Registry, ty: &Ty, v: &View) -> View {
 
 pub fn default_view(reg: &Registry, ty: &Ty) -> View {
     match ty {
-        Ty::U8 | Ty::U16 | Ty::U32 | Ty::U64 | Ty::NilU32 => View::U(0),
+        Ty::U8 | Ty::U16 | Ty::U32 | Ty::U64 | Ty::NilU32 | Ty::Tri => View::U(0),
         Ty::I8 | Ty::I16 | Ty::I32 | Ty::I64 => View::I(0),
         Ty::Bool => View::Bool(false),
         Ty::Char => View::Char('\0'),
